@@ -134,6 +134,27 @@ fn flag_combinations(r: &mut Rep, a: &Args) {
     }
 }
 
+/// bit 12 is an address bit of a 4 KiB-granular address and, as PageTableFlags bit 12, the PAT bit of huge-page leaves: when
+/// both carry it the entry still holds the bitwise union (raw == addr | flags) — nothing is added, carried or dropped
+fn overlapping_bit(r: &mut Rep) {
+    for &ad in &[0x1000u64, 0x0000_0001_2345_7000, 0x0000_0001_2345_6000, ADDR_MASK, ADDR_MASK & !0x1000, 0x3000, 0x2000] {
+        for &f in &[0x1000u64, 0x1001, 0x1003, 0x1083, 0x8000_0000_0000_1fff, 0x1000 | FLAG_MASK] {
+            for &s in &[0u64, u64::MAX, 0x0000_0000_0000_5003] {
+                r.transitions += 1;
+                let mut e = mk(s);
+                let case = format!("entry {:#x} SetAddr({}, {}) [flag bit 12 overlaps the address]", s, ad, f);
+                if catch(|| e.set_addr(PhysAddr::new(ad), F::from_bits_retain(f))).is_err() || raw(&e) != ad | f {
+                    r.viol("C08|set_addr|raw-encoding-is-not-the-bitwise-union-when-flag-bit-12-overlaps-the-address", &case, &format!("raw {:#x} expected {:#x}", raw(&e), ad | f));
+                }
+                let mut e = mk(s);
+                if catch(|| e.set_frame(PhysFrame::<Size4KiB>::containing_address(PhysAddr::new(ad)), F::from_bits_retain(f))).is_err() || raw(&e) != ad | f {
+                    r.viol("C08|set_frame|raw-encoding-is-not-the-bitwise-union-when-flag-bit-12-overlaps-the-address", &case, &format!("raw {:#x} expected {:#x}", raw(&e), ad | f));
+                }
+            }
+        }
+    }
+}
+
 fn search(r: &mut Rep, a: &Args) {
     let ad = addrs();
     let fl = flagsets();
@@ -398,6 +419,9 @@ pub fn run(a: &Args) {
     let mut r = Rep::new("C08", "entry-search");
     search(&mut r, a);
     guarded(&mut r, "C08|entry|unexpected-panic", || "entry flag-combinations".into(), |r| flag_combinations(r, a));
+    if a.shard == 0 {
+        guarded(&mut r, "C08|entry|unexpected-panic", || "entry overlapping-bit".into(), |r| overlapping_bit(r));
+    }
     r.sample("entry 0x0 SetAddr(4096, 1)  -> raw 0x1001".into());
     r.sample("entry 0x8000000000000fff... SetFlags(1<<63) leaves the address".into());
     r.note("explicit-state search to fixpoint: state = raw u64 of a real PageTableEntry; alphabet 45 aligned addresses (every single address bit) x ~58 flag sets (every single flag bit 0-11,52-63)");
